@@ -156,6 +156,18 @@ def _judge_holes(ctx):
         fresh = [(e.type.value, int(e.format), int(e.offset), int(e.size)) for e in f2.entries]
     if fresh != [d[:4] for d in disk]:
         return [("reopened!=disk", "a fresh object reads another table than the independent parser")]
+    # reading through the open object, slot by slot and kind by kind, gives what the bytes on disk hold
+    BT = specs.lib().block.BlockType
+    for i, e in enumerate(p["entries"]):
+        if e["type"] not in R.WRITABLE:
+            continue
+        for how, key in (("slot index", i), ("kind", BT(e["type"]))):
+            try:
+                back = specs.lib_encode(ctx["tdf"].get_block(key))
+            except Exception as x:  # noqa: BLE001
+                return [("read-raises", f"get_block by {how} for the {R.NAMES[e['type']]} block in slot {i}: {type(x).__name__}: {x}")]
+            if back != R.payload(ctx["data"], e):
+                return [("read!=disk", f"get_block by {how} for slot {i} returns content that differs from the bytes on disk")]
     return []
 
 
